@@ -12,6 +12,7 @@ mod sched_oracles;
 mod spec;
 mod stages;
 mod sweep;
+mod tour_mc;
 
 use serde_json::{json, Value};
 use sweep::SweepSpec;
@@ -57,6 +58,10 @@ fn sweep_spec(prop: &str) -> Option<SweepSpec<'static>> {
 fn check(prop: &str, tier: &str) -> i32 {
     if prop == "C06" {
         return c06(tier);
+    }
+    if prop == "C12" {
+        pool::install_panic_recorder_thread();
+        return tour_mc::check(tier);
     }
     if matches!(prop, "C09" | "C10" | "C13") {
         pool::install_panic_recorder_thread();
@@ -104,6 +109,10 @@ fn main() {
                 let path = args.get(4).cloned().unwrap_or_default();
                 let engine = std::fs::read_to_string(&path).ok().and_then(|t| serde_json::from_str::<Value>(&t).ok()).and_then(|v| v.get("engine").and_then(|e| e.as_str()).map(|s| s.to_string()));
                 match engine.as_deref() {
+                    Some("tour-mc") => {
+                        pool::install_panic_recorder_thread();
+                        tour_mc::replay(&path)
+                    }
                     Some("sched-mc") => {
                         pool::install_panic_recorder_thread();
                         sched_mc::replay(&prop, &path)
